@@ -477,7 +477,11 @@ class Ctx:
         ev = {"property_id": self.prop, "tier": self.tier, "seed": self.seed, "level": level, "coverage": cov,
               "assumptions": list(assumptions), "wall_s": round(time.time() - self.t0, 2), "violations": nviol}
         os.makedirs(os.path.join(VERIF, "evidence"), exist_ok=True)
-        with open(os.path.join(VERIF, "evidence", "%s.json" % self.prop), "w") as f:
+        evpath = os.path.join(VERIF, "evidence", "%s.json" % self.prop)
+        if getattr(self, "replay", None) is not None:
+            # a replay run re-examines one recorded case; it must not replace the evidence of a full run
+            evpath = os.path.join(CACHE, "replay_evidence_%s.json" % self.prop)
+        with open(evpath, "w") as f:
             json.dump(ev, f, indent=1, default=str)
         if not lines and os.environ.get("VERIF_KEEP_WORK") != "1":
             shutil.rmtree(self.work, ignore_errors=True)
@@ -533,8 +537,9 @@ def parse_assumptions(out):
                 if names:
                     break
                 continue
-            m = re.match(r"^([A-Za-z_][\w\.']*)\s*:", line)
-            if m:
+            # `name : type` on one line, or a bare `name` when Coq wraps a long type onto the next lines
+            m = re.match(r"^([A-Za-z_][\w\.']*)\s*(?::.*)?$", line)
+            if m and not line.startswith(" "):
                 names.append(m.group(1))
             elif re.match(r"^\S", line) and not line.startswith(" "):
                 if re.match(r"^(Closed under|Axioms:|     =)", line):
